@@ -31,7 +31,7 @@ class ModelMixin:
                      "ite", "unit", "is_none", "is_str", "is_int", "is_ref", "last", "ref", "allocated",
                      "held", "is_list_of_pos_int", "cls_id", "is_float", "sval", "ival", "dget", "singleton", "str", "is_bool", "is_dict", "is_list",
                      "setof", "contains", "prefix_of", "is_bytes", "is_cls", "map_int2str", "joinstr", "split", "lookup_global",
-                     "funcval", "seqmap", "extends", "only_changed", "UNSET", "unchanged", "unchanged_old", "cls_module_name", "all_reports", "empty_log", "count_failed", "suffix_of", "proj_a", "all_b", "all_tag", "card", "outside"}
+                     "funcval", "seqmap", "extends", "only_changed", "UNSET", "unchanged", "unchanged_old", "cls_module_name", "all_reports", "empty_log", "count_failed", "suffix_of", "proj_a", "all_b", "all_tag", "card", "outside", "mro", "none_in"}
 
     # ------------------------------------------------------------------ spec-mode calls
     def spec_call(self, e, st):
@@ -148,6 +148,8 @@ class ModelMixin:
                 return SV("seq", self.hget(st, "$seq", Val.rv(v.t)))
             if v.k == "tuple":
                 return SV("seq", self.mkseq([box(x) for x in v.x]))
+            if v.k == "none":
+                return SV("seq", z3.Empty(SeqV))
             raise SpecError("seq() of " + v.k)
         if name == "dict_of":
             v = self.concretize(st, a[0])
@@ -227,8 +229,7 @@ class ModelMixin:
         if name == "cls_id":
             return SV("cls", z3.IntVal(self._register_class(e.args[0].value)), h=e.args[0].value)
         if name == "clsof_":
-            v = self.concretize(st, a[0])
-            return SV("cls", clsof(Val.rv(v.t) if v.k == "val" else v.t))
+            return SV("cls", clsof(Val.rv(box(a[0]))))
         if name == "issubcls":
             return SV("bool", issub(a[0].t, a[1].t))
         if name == "typed":
@@ -339,6 +340,16 @@ class ModelMixin:
             d1, m1 = self.as_sdict(st, self.spec_builtin(st, "dict_of", [a[0]], e))
             ks = self.as_sset(st, a[1]) if a[1].k in ("sset", "cset") else self.as_sdict(st, self.spec_builtin(st, "dict_of", [a[1]], e))[0]
             return SV("sdict", (z3.SetDifference(d1, ks), self.ite_map(ks, z3.K(Val, NoneV), m1)))
+        if name == "mro":
+            from .libx import mro_of
+            v = self.concretize(st, a[0])
+            return SV("seq", mro_of(v.t), h="cls")
+        if name == "none_in":
+            sq = self.spec_builtin(st, "seq", [a[0]], e).t
+            d1, m1 = self.as_sdict(st, self.spec_builtin(st, "dict_of", [a[1]], e))
+            k = z3.Const("k!ni", Val)
+            return SV("bool", z3.ForAll([k], z3.Implies(z3.Contains(sq, z3.Unit(k)), z3.Not(z3.Select(d1, k))),
+                                        patterns=[z3.Contains(sq, z3.Unit(k))]))
         if name == "card":
             d1, m1 = self.as_sdict(st, self.spec_builtin(st, "dict_of", [a[0]], e))
             return SV("int", self.set_card(d1))
